@@ -61,6 +61,11 @@ def fa(c):
     return c.get("_fa", "a")
 
 
+def fad(c):
+    """the same field as it is spelled in declarations and expressions (`r#type` for the placeholder name `type`)"""
+    return c.get("_fad", fa(c))
+
+
 def literal(c):
     lit = c["lit"]
     named = c["named"]
@@ -75,9 +80,9 @@ def literal(c):
 
 def args_text(c):
     named = c["named"]
-    f0, f1 = (fa(c), "b") if named else ("_0", "_1")
+    f0, f1 = (fad(c), "b") if named else ("_0", "_1")
     lit = c["lit"]
-    alias = {"name_field": f0, "name_other": "v"}.get(lit["ref"], "v")
+    alias = {"name_field": fa(c) if named else "_0", "name_other": "v"}.get(lit["ref"], "v")
     a = c["args"]
     if a == "none":
         return ""
@@ -98,7 +103,7 @@ SHARED = {"none": "", "bare_variant": "{_variant}", "wrap": "[{_variant}]", "def
 
 
 def key_of(c):
-    return _key_of(c).replace(c["_fa"], "a~nonascii") if "_fa" in c else _key_of(c)      # keys stay ASCII
+    return _key_of(c).replace(c["_fa"], "a~nonascii") if ("_fa" in c and "_fad" not in c) else _key_of(c)      # keys stay ASCII
 
 
 def _key_of(c):
@@ -116,8 +121,8 @@ def decl(c):
     if c.get("as_variant"):
         # the same attribute on an enum variant (display.rs / debug.rs take a different route for enums)
         if named:
-            body = "{ " + ", ".join(f"{nm}: P" for nm in [fa(c), "b"][:n]) + " }"
-            init = "S::V { " + ", ".join(f"{nm}: P({i + 1})" for i, nm in enumerate([fa(c), "b"][:n])) + " }"
+            body = "{ " + ", ".join(f"{nm}: P" for nm in [fad(c), "b"][:n]) + " }"
+            init = "S::V { " + ", ".join(f"{nm}: P({i + 1})" for i, nm in enumerate([fad(c), "b"][:n])) + " }"
         else:
             body = "(" + ", ".join("P" for _ in range(n)) + ")"
             init = "S::V(" + ", ".join(f"P({i + 1})" for i in range(n)) + ")"
@@ -125,8 +130,8 @@ def decl(c):
         shared = f'#[{ATTR[D]}("{SHARED[c["sh"]]}")]\n' if c["sh"] != "none" else ""
         return f"#[derive(derive_more::{D})]\n{shared}pub enum S {{ {attr}V{body}, {other} }}", init
     if named:
-        body = "{ " + ", ".join(f"pub {nm}: P" for nm in [fa(c), "b"][:n]) + " }"
-        init = "S { " + ", ".join(f"{nm}: P({i + 1})" for i, nm in enumerate([fa(c), "b"][:n])) + " }"
+        body = "{ " + ", ".join(f"pub {nm}: P" for nm in [fad(c), "b"][:n]) + " }"
+        init = "S { " + ", ".join(f"{nm}: P({i + 1})" for i, nm in enumerate([fad(c), "b"][:n])) + " }"
     else:
         body = "(" + ", ".join("pub P" for _ in range(n)) + ");"
         init = "S(" + ", ".join(f"P({i + 1})" for i in range(n)) + ")"
@@ -144,9 +149,9 @@ def module(c, key, doc, specs):
             if doc[1] == "Pointer" and c["args"] in ("pos_field", "named_nomatch"):
                 # the argument is the field binding itself, i.e. a reference: formatted directly under Pointer it
                 # prints the field's address (std's `impl Pointer for &T`), with the caller's flags
-                f0 = fa(c) if c["named"] else "0"
+                f0 = fad(c) if c["named"] else "0"
                 if c.get("as_variant"):
-                    inner = ("match &v { S::V { %s: x, .. } => x, _ => unreachable!() }" % fa(c) if c["named"]
+                    inner = ("match &v { S::V { %s: x, .. } => x, _ => unreachable!() }" % fad(c) if c["named"]
                              else "match &v { S::V(x, ..) => x, _ => unreachable!() }")
                 else:
                     inner = f"&v.{f0}"
@@ -181,6 +186,8 @@ def run(chk, tier, seed, replay):
         c = rec["c"]
         if c["named"] and vlib.seeded_pick(json.dumps(c, sort_keys=True), seed + 5, 3) == 0:
             c["_fa"] = "\u092e\u0942\u0932\u094d\u092f"      # Devanagari: letters, vowel sign, virama
+        elif c["named"] and vlib.seeded_pick(json.dumps(c, sort_keys=True), seed + 5, 3) == 1:
+            c["_fa"], c["_fad"] = "type", "r#type"      # a keyword as a raw identifier: `{type}` names the field `r#type`
         k = key_of(c)
         if c["sh"] != "none":
             # an enum-level attribute exists on enums only: the variant form, always
